@@ -347,14 +347,47 @@ def extract_encryption(tree: ast.Module | None, notes: list[str]) -> dict:
         else:
             notes.append(f"gen/archive: {py} not found in encryption.py")
     enc, dec, kdf = _func(tree, "encrypt"), _func(tree, "decrypt"), _func(tree, "_derive_key")
+
+    def roles(fn: ast.FunctionDef, aead_method: str) -> dict[str, str]:
+        """local variable -> role, independent of how the locals are called: the salt is what goes to
+        `_derive_key(password, <salt>)`, the nonce / payload are the first / second argument of the AEAD call,
+        the result is what the AEAD call is assigned to; the first parameter is the input."""
+        rl: dict[str, str] = {}
+        params = [a.arg for a in fn.args.args]
+        if params:
+            rl[params[0]] = "plaintext" if aead_method == "encrypt" else "data"
+        if len(params) > 1:
+            rl[params[1]] = "password"
+        for n in ast.walk(fn):
+            if isinstance(n, ast.Call) and isinstance(n.func, ast.Name) and n.func.id == "_derive_key" and len(n.args) == 2 \
+                    and isinstance(n.args[1], ast.Name):
+                rl[n.args[1].id] = "salt"
+        for n in ast.walk(fn):
+            if isinstance(n, ast.Call) and isinstance(n.func, ast.Attribute) and n.func.attr == aead_method and len(n.args) >= 2:
+                if isinstance(n.args[0], ast.Name):
+                    rl.setdefault(n.args[0].id, "nonce")
+                if isinstance(n.args[1], ast.Name):
+                    rl.setdefault(n.args[1].id, "ciphertext" if aead_method == "decrypt" else "plaintext")
+            if isinstance(n, ast.Assign) and isinstance(n.targets[0], ast.Name) and isinstance(n.value, ast.Call) \
+                    and isinstance(n.value.func, ast.Attribute) and n.value.func.attr == aead_method:
+                rl.setdefault(n.targets[0].id, "ciphertext" if aead_method == "encrypt" else "plaintext")
+            if isinstance(n, ast.Assign) and isinstance(n.targets[0], ast.Name) and isinstance(n.value, ast.Call) \
+                    and isinstance(n.value.func, ast.Name) and n.value.func.id == "_derive_key":
+                rl.setdefault(n.targets[0].id, "key")
+        return rl
+
+    def rname(rl: dict[str, str], e: ast.AST) -> str:
+        return rl.get(e.id, e.id) if isinstance(e, ast.Name) else ast.unparse(e)
+
     if enc is not None:
+        rl = roles(enc, "encrypt")
         for n in ast.walk(enc):
             if isinstance(n, ast.Assign) and isinstance(n.targets[0], ast.Name) and isinstance(n.value, ast.Call) \
                     and ast.unparse(n.value.func) == "os.urandom" and len(n.value.args) == 1:
                 v = _eval(n.value.args[0], env)
-                if n.targets[0].id == "salt" and v is not None:
+                if rl.get(n.targets[0].id) == "salt" and v is not None:
                     r["encSaltLen"] = v
-                if n.targets[0].id == "nonce" and v is not None:
+                if rl.get(n.targets[0].id) == "nonce" and v is not None:
                     r["encNonceLen"] = v
             if isinstance(n, ast.Return):
                 parts: list[str] = []
@@ -364,19 +397,20 @@ def extract_encryption(tree: ast.Module | None, notes: list[str]) -> dict:
                         flat(e.left)
                         flat(e.right)
                     else:
-                        parts.append(ast.unparse(e))
+                        parts.append(rname(rl, e))
 
                 flat(n.value)
                 r["blobOrder"] = parts
             if isinstance(n, ast.Call) and isinstance(n.func, ast.Attribute) and n.func.attr == "encrypt":
-                r["sealArgs"] = [ast.unparse(a) for a in n.args]
-            if isinstance(n, ast.Assign) and isinstance(n.targets[0], ast.Name) and n.targets[0].id == "key":
-                r["keyFromPasswordAndSalt"] = ast.unparse(n.value) == "_derive_key(password, salt)"
+                r["sealArgs"] = [rname(rl, a) for a in n.args]
+            if isinstance(n, ast.Assign) and isinstance(n.targets[0], ast.Name) and rl.get(n.targets[0].id) == "key":
+                r["keyFromPasswordAndSalt"] = [rname(rl, a) for a in n.value.args] == ["password", "salt"]
     if dec is not None:
+        rl = roles(dec, "decrypt")
         key_ok = False
         for n in ast.walk(dec):
             if isinstance(n, ast.Assign) and isinstance(n.targets[0], ast.Name):
-                tname = n.targets[0].id
+                tname = rl.get(n.targets[0].id, n.targets[0].id)
                 if tname == "min_length":
                     v = _eval(n.value, env)
                     if v is not None:
@@ -384,7 +418,7 @@ def extract_encryption(tree: ast.Module | None, notes: list[str]) -> dict:
                     lits = [c.value for c in ast.walk(n.value) if isinstance(c, ast.Constant) and isinstance(c.value, int)]
                     r["tagLength"] = sum(lits) if lits else MISSING
                 if isinstance(n.value, ast.Subscript) and isinstance(n.value.slice, ast.Slice) \
-                        and isinstance(n.value.value, ast.Name) and n.value.value.id == "data":
+                        and isinstance(n.value.value, ast.Name) and rl.get(n.value.value.id) == "data":
                     sl = n.value.slice
                     lo = 0 if sl.lower is None else _eval(sl.lower, env)
                     hi = None if sl.upper is None else _eval(sl.upper, env)
@@ -395,13 +429,14 @@ def extract_encryption(tree: ast.Module | None, notes: list[str]) -> dict:
                             r["decNonceLo"], r["decNonceHi"] = lo, hi
                         elif tname == "ciphertext":
                             r["decCtLo"], r["decCtOpen"] = lo, sl.upper is None
-                if tname == "key":
-                    key_ok = ast.unparse(n.value) == "_derive_key(password, salt)"
-            if isinstance(n, ast.If) and isinstance(n.test, ast.Compare) and ast.unparse(n.test.left) == "len(data)" \
-                    and any(isinstance(x, ast.Raise) for x in n.body):
+                if tname == "key" and isinstance(n.value, ast.Call):
+                    key_ok = [rname(rl, a) for a in n.value.args] == ["password", "salt"]
+            if isinstance(n, ast.If) and isinstance(n.test, ast.Compare) and isinstance(n.test.left, ast.Call) \
+                    and ast.unparse(n.test.left.func) == "len" and len(n.test.left.args) == 1 \
+                    and rname(rl, n.test.left.args[0]) == "data" and any(isinstance(x, ast.Raise) for x in n.body):
                 r["minLengthCmp"] = type(n.test.ops[0]).__name__ + " " + ast.unparse(n.test.comparators[0])
             if isinstance(n, ast.Call) and isinstance(n.func, ast.Attribute) and n.func.attr == "decrypt":
-                r["openArgs"] = [ast.unparse(a) for a in n.args]
+                r["openArgs"] = [rname(rl, a) for a in n.args]
         r["keyFromPasswordAndSalt"] = r["keyFromPasswordAndSalt"] and key_ok
     if kdf is not None:
         for n in ast.walk(kdf):
